@@ -58,6 +58,8 @@ FUNCS = {
                          words=['splineCoeff'], defined_in='C18.lean', targets=['spline_coeff']),
     'dt_intersect': dict(tie=T + 'DtIntersect', theorems=['Mahotas.cscalar_dt_intersect_eq_model'],
                          words=['sInt'], defined_in='C05.lean', targets=['dt_intersect']),
+    'fast_positions': dict(tie=T + 'FastPositions', theorems=['Mahotas.cscalar_fast_positions_eq_model'],
+                           words=['fastPositions'], defined_in='C01.lean', targets=['fast_positions']),
     'rank_currank': dict(tie=T + 'CurRank', theorems=['Mahotas.cscalar_rank_currank_eq_model'],
                          words=['curRankG'], defined_in='C07.lean', targets=['rank_currank']),
     'find2d_marks': dict(tie=T + 'Find2d', theorems=['Mahotas.cscalar_find2d_marks_eq_model'],
@@ -222,6 +224,13 @@ def _unit(srcs: dict) -> str:
         s.append('extern "C" double cs_dt_intersect(double fq, long q_, double fv, long vk) { typedef double BaseType; const int q = (int)q_; '
                  'const int stride = 1; int k = 0; int v[1] = { (int)vk }; std::vector<double> fvec((q > vk ? q : vk) + 1); double* f = &fvec[0]; '
                  'f[q] = fq; f[vk] = fv; double s = 0; ' + srcs['dt_intersect']['slice'] + ' return s; }')
+    if 'fast_positions' in have:
+        s.append('#include <vector>')
+        s.append('struct cs_bc { const long* p; long d0, d1; long dim(int k) const { return k ? d1 : d0; } '
+                 'bool at(long y, long x) const { return p[y * d1 + x] != 0; } };')
+        s.append('extern "C" long cs_fast_positions(long Nx_, long By_, long Bx_, const long* bc, long* out) { const numpy::index_type Nx = Nx_; '
+                 'cs_bc Bc = { bc, By_, Bx_ }; ' + srcs['fast_positions']['slice'] +
+                 ' for (size_t i = 0; i < positions.size(); ++i) out[i] = positions[i]; return (long)positions.size(); }')
     if 'rank_currank' in have:
         s.append('extern "C" long cs_rank_currank(long n, long N2, long rank) { ' + srcs['rank_currank']['slice'] + ' return currank; }')
     if 'find2d_marks' in have or 'find2d_accesses' in have:
@@ -270,7 +279,7 @@ def _unit(srcs: dict) -> str:
 GROUPS = [['fix_offset'], ['t_abs'], ['subm_elem'], ['margin_of'], ['erode_sub', 'erode_sub_bool'], ['dilate_add', 'dilate_add_bool'],
           ['isLeft'], ['forward_cmp'], ['reverse_cmp'], ['at_flat'], ['pos_to_flat'], ['flat_to_pos'],
           ['sum_rect', 'csum_rect', 'haar_x', 'haar_y'], ['roll_right', 'lbp_map'], ['find2d_marks', 'find2d_accesses'],
-          ['spline_coeff'], ['rank_currank'], ['dt_intersect']]
+          ['spline_coeff'], ['rank_currank'], ['dt_intersect'], ['fast_positions']]
 _LIB = {}
 _SRCS = None
 
@@ -385,6 +394,15 @@ def _real_rows(case):
         f = lib.cs_dt_intersect
         f.restype, f.argtypes = ctypes.c_double, [ctypes.c_double, ctypes.c_long, ctypes.c_double, ctypes.c_long]
         out = [str(core.f2bits(f(core.bits2f(fq), q, core.bits2f(fv), vk))) for fq, q, fv, vk in case['rows']]
+    elif fn == 'fast_positions':
+        f = lib.cs_fast_positions
+        f.restype = ctypes.c_long
+        for (nx,), dims, bc in case['rows']:
+            n = dims[0] * dims[1]
+            B = (ctypes.c_long * max(1, n))(*bc)
+            O = (ctypes.c_long * (2 * n + 2))()
+            k = f(ctypes.c_long(nx), ctypes.c_long(dims[0]), ctypes.c_long(dims[1]), B, O)
+            out.append(','.join(str(O[i]) for i in range(k)))
     elif fn == 'rank_currank':
         f = lib.cs_rank_currank
         f.restype, f.argtypes = ctypes.c_long, [ctypes.c_long] * 3
@@ -435,6 +453,8 @@ def _lines(case):
         return [f'{pre} l0={core.fmt_ints(d)} l1={core.fmt_ints(p)}' for d, p in case['rows']]
     if fn in ('sum_rect', 'csum_rect', 'haar_x', 'haar_y', 'flat_to_pos'):
         return [f'{pre} a={core.fmt_ints(a)} l0={core.fmt_ints(d)}' for a, d in case['rows']]
+    if fn == 'fast_positions':
+        return [f'{pre} a={core.fmt_ints(a)} l0={core.fmt_ints(d)} l1={core.fmt_ints(bc)}' for a, d, bc in case['rows']]
     if fn == 'find2d_marks':
         return [f'{pre} l0={core.fmt_ints(d)} l1={core.fmt_ints(td)} l2={core.fmt_ints(a)} l3={core.fmt_ints(t)}' for d, td, a, t in case['rows']]
     if fn == 'find2d_accesses':
@@ -684,6 +704,17 @@ def _cases_dt(rng, tier):
     return [dict(fn='dt_intersect', rows=ch, src='random') for ch in _chunks(rows, 1500)]
 
 
+def _cases_fastpos(rng, tier):
+    """structuring elements 0 … 7 x 0 … 9 (wider than the image: the clamps act), images with 0, 1, 2, 3 and more columns"""
+    rows = []
+    for _ in range(dict(quick=1200, thorough=20000, search=6000)[tier]):
+        by, bx = rng.randint(0, 7), rng.choice([rng.randint(0, 9), rng.randint(5, 9)])
+        nx = rng.choice([0, 1, 1, 2, 2, 3, 4, rng.randint(1, 12)])
+        p = rng.choice([0.2, 0.6, 1.0])
+        rows.append([[nx], [by, bx], [int(rng.random() < p) for _ in range(by * bx)]])
+    return [dict(fn='fast_positions', rows=ch, src='random') for ch in _chunks(rows, 1200)]
+
+
 def _cases_currank(rng, tier):
     """every (n, N2, rank) with rank < N2 <= 12, n <= N2; random footprints up to 2^20 samples (n * rank below 2^53)"""
     rows = [[n, n2, r] for n2 in range(1, 13) for n in range(0, n2 + 1) for r in range(0, n2)]
@@ -696,6 +727,7 @@ def _cases_currank(rng, tier):
 GENERATORS = {
     'spline_coeff': _cases_spline,
     'rank_currank': _cases_currank,
+    'fast_positions': _cases_fastpos,
     'dt_intersect': _cases_dt,
     'find2d_marks': lambda rng, tier: _cases_find2d('find2d_marks', rng, tier),
     'find2d_accesses': lambda rng, tier: _cases_find2d('find2d_accesses', rng, tier),
